@@ -55,6 +55,21 @@ def run(chk):
         n = 300 if chk.tier == "quick" else 12000
         for i in range(n):
             case = pipegen.gen_case(rng, callers, st)
+            if case.get("caller") is not None and rng.chance(1, 6):
+                # an attributed connection, then a DIRECT connection to the listener from the same source port: the second one
+                # has no attribution record of its own (C07 makes the first record single-use) and must be refused
+                o1 = runner.run_case(case, keep_conn=True)
+                port = o1["conn"].port
+                o1["conn"].close(rst=True)
+                o1["conn"] = None
+                case2 = pipegen.gen_case(rng, callers, st)
+                case2["caller"], case2["dest"], case2["srcport"], case2["label"] = None, None, port, "direct-reusing-port"
+                chk.count("direct_connection_reusing_an_attributed_port")
+                try:
+                    runner.run_case(case2)
+                except OSError:
+                    chk.count("port_reuse_not_possible")
+                continue
             runner.run_case(case)
         runner.finish(oracle)
         if stack.panics():
